@@ -25,6 +25,8 @@ EXPLANATION = (
   ' (STATE-share) no assignment stores a container field of one object (a field the package updates in place) into a field of another object without copying it, so an in-place update of one object never changes another;'
   " (ITEM-source) an object built once per item of an inner loop is filled only with values that derive from that item or do not vary with the loops, never with a value of the enclosing container standing where the item's own belongs;"
   ' (PAIR-close) every feed() of cue text to the HTMLParser-based text parser is followed by close() on every path, so the tail that HTMLParser holds back is delivered;'
+  ' (LOOP-break) no loop over the items of a collection is left by a branch that does nothing but `break` on a test about the item (end-of-input sentinels, flags set in the loop body and searches whose variable is read afterwards excepted): an item that is to be skipped does not end the processing of the items after it;'
+  ' (FIN-regex) the SubRip timing-line pattern and the colour patterns accept / reject the probe values written from the format description;'
 )
 RULE_TEXT = "EXA/DEF/NUL: per call site / function; FMT: per sample timing line; TAB-tags: per writer tag literal"
 UNDECIDED = ["tag scoping for nested/adjacent tags", "line splitting and blank-line handling", "counter tolerance"]
@@ -165,4 +167,5 @@ def run(ctx):
   common.check_item_handlers(ctx, ["ttconv.srt.reader", "ttconv.utils"])
   nha = nul.check_html_attr_values(ctx, [ctx.ix.cls("ttconv.srt.reader:_TextParser")])
   ctx.floor("NUL-htmlattr", "uses of HTML attribute values", nha, 1)
+  common.check_regex_probes(ctx, ["ttconv.srt.reader", "ttconv.utils"], floor=4)
   common.check_history_independence(ctx, ["ttconv.srt.reader", "ttconv.utils"])
